@@ -295,6 +295,52 @@ def pos_ok(spec_pos, applicable, dst):
     return spec_pos in applicable
 
 
+def _find_unwrap_or(atom):
+    """(start, end, X, Y) of the first `unwrap_or(X,Y)` term in atom (balanced parentheses), or None."""
+    i = atom.find("unwrap_or(")
+    if i < 0:
+        return None
+    j = i + len("unwrap_or(")
+    depth = 0
+    comma = None
+    k = j
+    while k < len(atom):
+        c = atom[k]
+        if c in "([{":
+            depth += 1
+        elif c in ")]}":
+            if depth == 0:
+                break
+            depth -= 1
+        elif c == "," and depth == 0 and comma is None:
+            comma = k
+        k += 1
+    if comma is None or k >= len(atom):
+        return None
+    return i, k + 1, atom[j:comma].strip(), atom[comma + 1:k].strip()
+
+
+def _established_by_split(atom, pol, cfacts):
+    """A contract guard over `unwrap_or(X, Y)` (a configured value falling back to the static one) is established by a code path
+    that tested X itself: the same guard over Y under the fact `X is None`, or over X's payload under `X is Some`."""
+    u = _find_unwrap_or(atom)
+    if u is None:
+        return False
+    i, j, X, Y = u
+    none_known = ("%s is None" % X, True) in cfacts or ("%s is Some" % X, False) in cfacts
+    some_known = ("%s is Some" % X, True) in cfacts or ("%s is None" % X, False) in cfacts
+    if none_known:
+        a2 = atom[:i] + Y + atom[j:]
+        if (a2, pol) in cfacts or _established_by_split(a2, pol, cfacts):
+            return True
+    if some_known:
+        for payload in ("(%sasSome).0" % X, "(%s as Some).0" % X, X + ".0", "unwrap(%s)" % X, X):
+            a2 = atom[:i] + payload + atom[j:]
+            if (a2, pol) in cfacts or _established_by_split(a2, pol, cfacts):
+                return True
+    return False
+
+
 def conforms(spec_edges, comp_edges):
     """Returns (problems, n_obligations).  problems: list of (kind, text)."""
     problems = []
@@ -307,7 +353,9 @@ def conforms(spec_edges, comp_edges):
         why = []
         for se in cands:
             cfacts = getattr(ce, "facts_sat", None) or ce.facts
-            if not se.facts <= cfacts:
+            if not se.facts <= cfacts and all(_established_by_split(a, p, cfacts) for a, p in (se.facts - cfacts)):
+                pass
+            elif not se.facts <= cfacts:
                 # a guard the contract demands is absent or has the opposite polarity on the code path
                 miss = sorted(se.facts - cfacts)
                 why.append("guard %s not established" % ", ".join(("" if p else "!") + a for a, p in miss))
